@@ -70,56 +70,11 @@ func runC09(c *an.Ctx) {
 	}
 	c.Count("WHO-MAY", n)
 	c.Floor("WHO-MAY", 2)
-	// the write
-	var write *ssa.Call
-	for _, b := range saver.Blocks {
-		for _, in := range b.Instrs {
-			if call, ok := in.(*ssa.Call); ok && an.CalleeName(&call.Call) == "(*os.File).WriteAt" {
-				write = call
-			}
-		}
+	write, facts, tsS := writeOnce(c, saver, loader)
+	if write == nil {
+		return
 	}
-	tsS := sfi.Term(saver.Params[1])
 	valS := sfi.Term(saver.Params[2])
-	facts := sfi.FactsAt(write)
-	// current = result 0 of the loader for the same timeslot
-	var cur *an.Term
-	for _, b := range saver.Blocks {
-		for _, in := range b.Instrs {
-			if call, ok := in.(*ssa.Call); ok && call.Call.StaticCallee() == loader {
-				if sfi.Term(call.Call.Args[1]).Key() == tsS.Key() {
-					cur = sfi.FieldlessExtract(call, 0)
-				}
-			}
-		}
-	}
-	if cur == nil {
-		c.Violated("WRITE-ONCE", saver, saver.Pos(), an.KeyOf(saver, "reads-slot"), "the saver does not read the slot it is about to write", "no call of the history loader for the same timeslot")
-	} else {
-		empty := facts.Has(an.NormBin("==", cur, an.ConstTerm("0")).Key())
-		differs := facts.Has(an.NormBin("!=", cur, valS).Key())
-		c.Check(empty, "WRITE-ONCE", saver, write.Pos(), an.KeyOf(saver, "slot-empty"), "the slot is written only if the value just read from it is 0 (a stored reading is never overwritten)", "facts "+factList(facts))
-		c.Check(differs, "WRITE-ONCE", saver, write.Pos(), an.KeyOf(saver, "idempotent"), "saving the value that is already stored is a no-op (no write, no error)", "facts "+factList(facts))
-		// different non-zero => error return
-		okErr := false
-		for _, b := range saver.Blocks {
-			if len(b.Instrs) == 0 {
-				continue
-			}
-			ret, ok := b.Instrs[len(b.Instrs)-1].(*ssa.Return)
-			if !ok {
-				continue
-			}
-			if k, isC := sfi.Term(ret.Results[0]).IsConst(); isC && k == "nil" {
-				continue
-			}
-			f2 := sfi.FactsAt(ret)
-			if f2.Has(an.NormBin("!=", cur, an.ConstTerm("0")).Key()) && f2.Has(an.NormBin("!=", cur, valS).Key()) {
-				okErr = true
-			}
-		}
-		c.Check(okErr, "WRITE-ONCE", saver, saver.Pos(), an.KeyOf(saver, "conflict-error"), "a different value for an occupied slot makes the saver return an error (so the caller does not send it)", "error return under stored != 0 and stored != new")
-	}
 	// refusal before origin
 	okRef := false
 	for _, f := range facts {
@@ -196,6 +151,63 @@ func runC09(c *an.Ctx) {
 }
 
 // findSender: the client function that builds, signs and sends a report.
+// writeOnce: the history saver writes a slot only when the value just read
+// from it is 0, treats an equal value as a no-op and refuses a different one.
+func writeOnce(c *an.Ctx, saver, loader *ssa.Function) (*ssa.Call, an.FactSet, *an.Term) {
+	sfi := c.P.Info(saver)
+	// the write
+	var write *ssa.Call
+	for _, b := range saver.Blocks {
+		for _, in := range b.Instrs {
+			if call, ok := in.(*ssa.Call); ok && an.CalleeName(&call.Call) == "(*os.File).WriteAt" {
+				write = call
+			}
+		}
+	}
+	tsS := sfi.Term(saver.Params[1])
+	valS := sfi.Term(saver.Params[2])
+	facts := sfi.FactsAt(write)
+	// current = result 0 of the loader for the same timeslot
+	var cur *an.Term
+	for _, b := range saver.Blocks {
+		for _, in := range b.Instrs {
+			if call, ok := in.(*ssa.Call); ok && call.Call.StaticCallee() == loader {
+				if sfi.Term(call.Call.Args[1]).Key() == tsS.Key() {
+					cur = sfi.FieldlessExtract(call, 0)
+				}
+			}
+		}
+	}
+	if cur == nil {
+		c.Violated("WRITE-ONCE", saver, saver.Pos(), an.KeyOf(saver, "reads-slot"), "the saver does not read the slot it is about to write", "no call of the history loader for the same timeslot")
+	} else {
+		empty := facts.Has(an.NormBin("==", cur, an.ConstTerm("0")).Key())
+		differs := facts.Has(an.NormBin("!=", cur, valS).Key())
+		c.Check(empty, "WRITE-ONCE", saver, write.Pos(), an.KeyOf(saver, "slot-empty"), "the slot is written only if the value just read from it is 0 (a stored reading is never overwritten)", "facts "+factList(facts))
+		c.Check(differs, "WRITE-ONCE", saver, write.Pos(), an.KeyOf(saver, "idempotent"), "saving the value that is already stored is a no-op (no write, no error)", "facts "+factList(facts))
+		// different non-zero => error return
+		okErr := false
+		for _, b := range saver.Blocks {
+			if len(b.Instrs) == 0 {
+				continue
+			}
+			ret, ok := b.Instrs[len(b.Instrs)-1].(*ssa.Return)
+			if !ok {
+				continue
+			}
+			if k, isC := sfi.Term(ret.Results[0]).IsConst(); isC && k == "nil" {
+				continue
+			}
+			f2 := sfi.FactsAt(ret)
+			if f2.Has(an.NormBin("!=", cur, an.ConstTerm("0")).Key()) && f2.Has(an.NormBin("!=", cur, valS).Key()) {
+				okErr = true
+			}
+		}
+		c.Check(okErr, "WRITE-ONCE", saver, saver.Pos(), an.KeyOf(saver, "conflict-error"), "a different value for an occupied slot makes the saver return an error (so the caller does not send it)", "error return under stored != 0 and stored != new")
+	}
+	return write, facts, tsS
+}
+
 func findSender(p *an.Program) *ssa.Function {
 	for _, fn := range p.FuncsIn("client") {
 		for _, b := range fn.Blocks {
@@ -322,6 +334,10 @@ func sendAfterSave(c *an.Ctx, saver, loader *ssa.Function) {
 						if t.K == an.KExt && t.S == "0" {
 							if cc, ok := t.A[0].Val.(*ssa.Call); ok && cc.Call.StaticCallee() == loader {
 								fromHistory = true
+								// the report must carry the very slot whose reading was loaded
+								ts := fi.ResolveLocalField(rec, "Timeslot", call)
+								sameSlot := ts != nil && ts.Key() == fi.Term(cc.Call.Args[1]).Key()
+								c.Check(sameSlot, "SEND", fn, call.Pos(), key+":same-slot", "a reading loaded from the history is sent under the timeslot it was loaded from (otherwise the device signs, for that other slot, a value that differs from the slot's own first report)", "record.Timeslot "+keyOrNone(ts)+", loaded slot "+short(fi.Term(cc.Call.Args[1]).Key()))
 							}
 						}
 					})
